@@ -594,7 +594,7 @@ class ChemicalIndexer(Indexer):
                 phase = phase.lower()
             else:
                 phase = phase.upper()
-        material_array[phase].copy_like(self.data)
+        if self.data.any(): material_array[phase].copy_like(self.data)
         return material_array
     
     def copy_like(self, other):
